@@ -5,7 +5,7 @@ from common import Fr, enc_q, close, rng
 import gmgen
 
 LEAN_MODULE = 'PGM.Properties.C11'
-LEAN_EXTRA = ['PGM.Properties.C11B', 'PGM.Properties.C11G', 'PGM.Properties.C11E']
+LEAN_EXTRA = ['PGM.Properties.C11B', 'PGM.Properties.C11G', 'PGM.Properties.C11E', 'PGM.Properties.C11F']
 TRANSLATORS = ('py2gm', 'py2gmq')   # synthetic_data / synthetic_col of graphical_model.py -> Generated/GraphicalModelQG.lean (imports GraphicalModelG.lean)
 TRUSTED = ['Lean 4.33 kernel', 'axioms: propext, Classical.choice, Quot.sound',
            'hand model PGM/Model/Synth.lean of the inner synthetic_col (rounding mode) tied to graphical_model.py:196-249 by applying the verified checker colOK to every (column, group) of the generated table',
